@@ -154,6 +154,25 @@ def shared_descendant_doc(r, variant):
     return write_pdf(objs, 1), ""
 
 
+def same_name_doc(r, variant):
+    """two (or three) pages that all call their font /F1 but mean DIFFERENT font objects (resource names are local to
+    a page's resource dictionary); in odd variants one of them is a direct dictionary (no object number, never cached)"""
+    def font(diffs):
+        return {"Type": Name("Font"), "Subtype": Name("Type1"), "BaseFont": Name("Helvetica"),
+                "Encoding": {"Type": Name("Encoding"), "BaseEncoding": Name("WinAnsiEncoding"), "Differences": diffs}}
+    objs = {1: {"Type": Name("Catalog"), "Pages": Ref(2)}, 2: {"Type": Name("Pages"), "Kids": [Ref(3), Ref(5), Ref(9)], "Count": 3},
+            7: font([65, Name("X"), Name("Y"), Name("Z")]), 8: font([65, Name("one"), Name("two"), Name("three")]),
+            4: Stream({}, b"BT /F1 12 Tf 72 700 Td (ABC) Tj ET"), 6: Stream({}, b"BT /F1 12 Tf 72 700 Td (ABC) Tj ET"),
+            10: Stream({}, b"BT /F1 12 Tf 72 700 Td (CBA) Tj ET")}
+    third = font([65, Name("a"), Name("b"), Name("c")]) if variant % 2 else Ref(7)
+    order = [(3, 4, Ref(7)), (5, 6, Ref(8)), (9, 10, third)]
+    if variant >= 2:
+        order = [(3, 4, Ref(8)), (5, 6, third), (9, 10, Ref(7))]
+    for pg, cs, f in order:
+        objs[pg] = {"Type": Name("Page"), "Parent": Ref(2), "MediaBox": [0, 0, 612, 792], "Contents": Ref(cs), "Resources": {"Font": {"F1": f}}}
+    return write_pdf(objs, 1), ""
+
+
 def make_pool(ctx, k):
     import c10
     import c11
@@ -164,6 +183,8 @@ def make_pool(ctx, k):
         pool.append(("cid%d" % v,) + cid_doc(ctx.sub("pool", k, "cid", v), v))
     for v in range(4):
         pool.append(("shared%d" % v,) + shared_descendant_doc(ctx.sub("pool", k, "shared", v), v))
+    for v in range(4):
+        pool.append(("samename%d" % v,) + same_name_doc(ctx.sub("pool", k, "samename", v), v))
     for v in range(3):
         pdf, _, _ = c11.gen_doc(ctx.sub("pool", k, "c11", v))
         pool.append(("mixed%d" % v, pdf, ""))
@@ -208,7 +229,7 @@ def histories(ctx, nrounds):
             for key in ("text", "xml", "pages"):
                 if got.get(key) != want.get(key):
                     ctx.violation(kind, {"doc": name, "history": history, "what": key, "pdf": docs[name][0].hex(),
-                                         "others": {h: docs[h][0].hex() for h in set(history) if h != name}},
+                                         "others": {h: docs[h][0].hex() for h in set(history) if h != name and h in docs}},
                                   str(want.get(key))[:300], str(got.get(key))[:300],
                                   "result of extraction depends on the call history (%s differs from a fresh process)" % key)
                     return
